@@ -82,6 +82,7 @@ def run(chk):
     outclean.run(chk)
     from lib import unlink
     unlink.run(chk)
+    unlink.run_pass_data(chk)
 
     return chk.finish(
         level="other",
